@@ -80,3 +80,41 @@ _op = Op('linalg:eig_symmetric_base', _gen_eig_symmetric, _run_eig_values, 'lina
 _op.ref0 = lambda case, ins0: [numpy.linalg.eig(ins0[0])[0]]
 _op.only = ('C10', 'C11')
 reg(_op)
+
+
+# ---- transposition of polynomials with FOUR and more array axes (full reversal of the axes, as numpy.transpose)
+def _gen_transpose_nd(rng, Dmax=6, Pmax=3):
+    D = rng.randint(1, 3); P = rng.randint(1, Pmax)
+    shp = rng.choice([(2, 3, 4, 2), (2, 2, 2, 2), (3, 3, 3, 3), (2, 1, 3, 2, 2), (2, 3, 2)])
+    return dict(op='shape:transpose_nd', inputs=[_rand_utpm(rng, D, P, shp).tolist()], form=rng.choice(['T', 'transpose()', 'algopy.transpose']))
+
+
+def _run_transpose_nd(algopy, case, inputs):
+    x = algopy.UTPM(_as(inputs[0]))
+    y = x.T if case['form'] == 'T' else (x.transpose() if case['form'] == 'transpose()' else algopy.transpose(x))
+    return [numpy.asarray(y.data)]
+
+
+_op = Op('shape:transpose_nd', _gen_transpose_nd, _run_transpose_nd, 'shape')
+_op.ref0 = lambda case, ins0: [numpy.transpose(ins0[0])]
+reg(_op)
+
+
+# ---- a matrix operand that is a CONSTANT polynomial (all higher coefficients exactly zero) with a different base point per direction
+def _gen_constant_matrix(name, kind):
+    def gen(rng, Dmax=6, Pmax=3):
+        D = rng.randint(2, 4); P = rng.randint(2, 3); n = rng.randint(2, 3)
+        A = numpy.zeros((D, P, n, n))
+        for p in range(P):
+            A[0, p] = _spd_or_general(rng, n, kind)
+        ins = [A.tolist()]
+        if name == 'solve':
+            ins.append(_rand_utpm(rng, D, P, (n, 2)).tolist())
+        return dict(op='linalg:%s_constant_matrix' % name, inputs=ins)
+    return gen
+
+
+for _name, _kind in [('solve', 'general'), ('inv', 'general'), ('cholesky', 'spd'), ('qr', 'general'), ('eigh', 'sym'), ('lu', 'general'), ('det', 'general')]:
+    _op = Op('linalg:%s_constant_matrix' % _name, _gen_constant_matrix(_name, _kind), _run_linalg(_name), 'linalg')
+    _op.only = ('C11', 'C12')
+    reg(_op)
